@@ -5,6 +5,8 @@ CONSTANTS
  MaxOps = 1
  KeyMode = "clean"
  LockRefTgt = TRUE
+ CtxKinds = {"bg", "cancelled"}
+ MarkCtx = FALSE
  Eager = FALSE
 SPECIFICATION Spec
 INVARIANTS TypeOK LocksNonNeg MarkIsReach
